@@ -87,6 +87,7 @@ fn real_main() {
                 wall_cap: arg(&args, "--wall").and_then(|s| s.parse().ok()).map(Duration::from_secs).unwrap_or(cap),
                 cross_every: arg(&args, "--cross-every").and_then(|s| s.parse().ok()).unwrap_or(10),
                 directed_limit: arg(&args, "--directed-limit").and_then(|s| s.parse().ok()),
+                no_floor: args.iter().any(|a| a == "--no-floor"),
             };
             let o = check::run_check(&cfg);
             if o.new_violations > 0 {
